@@ -115,4 +115,16 @@ def big_manifest(rep, tier, seed):
         sc.cleanup()
 
 
-check, replay = make("C05", oracles.oracle_c05, scenario, 60, 1500, RULE, snap=True, extra=big_manifest)
+def _prefix_siblings(fault):
+    tree = {"Reel1": {"d": {"a.mov": {"f": "0101"}}}, "Reel10": {"d": {"b.mov": {"f": "0202"}, "Sub": {"d": {"c.mov": {"f": "0303"}}}}}, "top.txt": {"f": "5454"}}
+    return {"tree": tree, "steps": [{"op": "create", "root": "Reel1", "fmts": ["md5"]}, {"op": "create", "root": "Reel10", "fmts": ["md5"]}, {"op": "create", "fmts": ["md5"]}, fault,
+                                    {"op": "verify"}, {"op": "diff"}, {"op": "info"}, {"op": "verifydh"}, {"op": "create", "fmts": ["md5"]},
+                                    {"op": "create", "fmts": ["md5"], "sf": ["top.txt"]}, {"op": "flatten"}]}
+
+
+# recorded inputs that run first: two nested histories in sibling folders where one name is the beginning of the other
+# (Reel1 / Reel10) -- a fault in the second one is found like any other
+CORPUS = [_prefix_siblings({"op": "tamper", "hist": "Reel10", "gen": 1, "kind": "flip", "pos": 700, "bit": 1, "keep_mtime": True}),
+          _prefix_siblings({"op": "rmmanifest", "hist": "Reel10", "gen": 2}),
+          _prefix_siblings({"op": "rmchain", "hist": "Reel10"})]
+check, replay = make("C05", oracles.oracle_c05, scenario, 60, 1500, RULE, snap=True, extra=big_manifest, corpus=CORPUS)
